@@ -45,6 +45,9 @@ func zzDecTxStartEnd(u UdpPack) []interface{} {
 func zzDecTxHttpc(u UdpPack) []interface{}     { return []interface{}{&u.(*UdpTxHttpcPack).StepId} }
 func zzDecTxResultSet(u UdpPack) []interface{} { return []interface{}{&u.(*UdpTxResultSetPack).Fetch} }
 
+// TxSql.Fetch travels as decimal text at the Python versions (since the /repo fix)
+func zzDecTxSql(u UdpPack) []interface{} { return []interface{}{&u.(*UdpTxSqlPack).Fetch} }
+
 //vf: paths=20000 t.paths=400000
 func ZZ_C07_TxStart() { zzRoundTrip("TxStart", zzMkTxStart, nil, nil, nil) }
 
@@ -55,7 +58,7 @@ func ZZ_C07_TxStartEnd() { zzRoundTrip("TxStartEnd", zzMkTxStartEnd, zzDecTxStar
 func ZZ_C07_TxEnd() { zzRoundTrip("TxEnd", zzMkTxEnd, zzDecTxEnd, nil, nil) }
 
 //vf: paths=20000 t.paths=400000
-func ZZ_C07_TxSql() { zzRoundTrip("TxSql", zzMkTxSql, nil, nil, nil) }
+func ZZ_C07_TxSql() { zzRoundTrip("TxSql", zzMkTxSql, zzDecTxSql, nil, nil) }
 
 //vf: paths=20000 t.paths=400000
 func ZZ_C07_TxSqlParam() { zzRoundTrip("TxSqlParam", zzMkTxSqlParam, nil, nil, nil) }
